@@ -3,6 +3,7 @@ package main
 import (
 	"flag"
 	"fmt"
+	"go/types"
 	"os"
 	"path/filepath"
 	"sort"
@@ -66,6 +67,39 @@ func LoadEngine() (*Engine, error) {
 			}
 		}
 		e.funcs[k] = fn
+	}
+	// methods of (generic) named types and their closures are not all enumerated by AllFunctions
+	var addFn func(fn *ssa.Function)
+	addFn = func(fn *ssa.Function) {
+		if fn == nil || fn.Origin() != nil {
+			return
+		}
+		k := fullKey(fn)
+		if old, dup := e.funcs[k]; !dup || len(old.Blocks) == 0 {
+			e.funcs[k] = fn
+		}
+		for _, af := range fn.AnonFuncs {
+			addFn(af)
+		}
+	}
+	for path, sp := range e.spkgs {
+		if !strings.HasPrefix(path, modulePath) {
+			continue
+		}
+		for _, m := range sp.Members {
+			switch x := m.(type) {
+			case *ssa.Function:
+				if x.Synthetic == "" {
+					addFn(x)
+				}
+			case *ssa.Type:
+				if named, ok := x.Type().(*types.Named); ok {
+					for i := 0; i < named.NumMethods(); i++ {
+						addFn(prog.FuncValue(named.Method(i)))
+					}
+				}
+			}
+		}
 	}
 	files, err := FindContractFiles(repoRoot)
 	if err != nil {
